@@ -2,6 +2,11 @@
 
 package mocrelay
 
+import (
+	"context"
+	"net/http"
+)
+
 // Hooks for the verification harness in /verif (build tag "verif").
 // Add-only: thin wrappers around unexported identifiers; no behaviour.
 
@@ -57,4 +62,9 @@ func VerifValidKind(k int64) bool { return validKind(k) }
 // VerifParseMachineReadablePrefixMsg exposes parseMachineReadablePrefixMsg.
 func VerifParseMachineReadablePrefixMsg(s string) (string, string) {
 	return parseMachineReadablePrefixMsg(s)
+}
+
+// VerifCtxWithRequest exposes ctxWithRequest: the context a Relay hands to its handler.
+func VerifCtxWithRequest(ctx context.Context, r *http.Request) context.Context {
+	return ctxWithRequest(ctx, r)
 }
